@@ -435,6 +435,7 @@ func runC11(r *Run) {
 			if cs.cause == "dropout" {
 				continue
 			}
+			r.Breadcrumb(cs.String())
 			o := runC11Case(gws, cs, host, bound)
 			if o.inconclusive != "" {
 				r.Inconclusive()
